@@ -78,6 +78,16 @@ XH_ALL = [nv for k in XH if k not in ("xcs", "cors_empty", "cors_raw", "prefligh
           for nv in XH[k]]
 
 
+# request targets that deployments commonly exempt from authentication somewhere (probes, docs, static files, login):
+# behind the gate they are paths like any other
+PATHS = ["/health", "/healthz", "/ping", "/ready", "/metrics", "/favicon.ico", "/robots.txt", "/.well-known/jwks.json",
+         "/login", "/auth/refresh", "/public/x", "/static/app.js", "/swagger/index.html", "/debug/pprof/", "/ws", "/events",
+         "/", "/private/../public", "/PRIVATE", "/private/"]
+SRV_PATHS = ["/health", "/healthz", "/ping", "/metrics", "/favicon.ico", "/login", "/auth/refresh", "/public/x",
+             "/static/app.js", "/swagger/index.html", "/ws", "/events", "/.well-known/jwks.json"]      # literal router paths
+QUERIES = ["", "", "?token=" + _TOK, "?access_token=" + _TOK, "?jwt=" + _TOK + "&debug=1", "?Authorization=Bearer%20" + _TOK]
+
+
 def canon_hdr(name):
     """the key net/http stores a header under (textproto.CanonicalMIMEHeaderKey for token names; "raw:x" = exactly x)"""
     if name.startswith("raw:"):
@@ -340,6 +350,10 @@ class C18(Property):
                 reqs += [jr(st, m, bundles[b]) for b in ("preflight_h", "all") for st in ("absent", "valid", "expired", "wrong")]
         for i in range(0, len(reqs), 18):
             out.append({"kind": "jwt", "secret": "s1", "prev": "s0", "cb": 1, "reqs": reqs[i:i + 18]})
+        treqs = [dict(jr(st, m), target=pth + qs) for pth in PATHS for qs in (QUERIES[0], QUERIES[2])
+                 for st, m in (("absent", "GET"), ("expired", "GET"), ("valid", "POST"), ("wrong", "HEAD"))]
+        for i in range(0, len(treqs), 20):
+            out.append({"kind": "jwt", "secret": "s1", "prev": "s0", "cb": 1, "reqs": treqs[i:i + 20]})
         out.append({"kind": "jwt", "secret": "s1", "prev": "", "cb": 0, "reqs": [
             jr(st, "OPTIONS", bundles[b]) for b in ("preflight", "preflight_h") for st in ("absent", "expired", "wrong", "malformed", "none", "empty", "valid")]})
         # (b) one TokenParser
@@ -385,8 +399,19 @@ class C18(Property):
                         sreqs.append({"tgt": 2, "donor": 1, "j": None, "cs": cs("/s/one", "fa", "A", "normal"), "clean": False})
                         sreqs.append({"tgt": 1, "donor": 2, "j": sj("valid"), "cs": cs("/ms/one", "fb", "B", "normal"), "clean": False})
                         sreqs.append({"tgt": 2, "donor": 2, "j": None, "cs": cs("/s/one", "fb", "B", "normal"), "clean": False})
+                gs = json.loads(json.dumps(groups))
+                if bname == "all":
+                    # a JWT group whose routes are the paths deployments like to exempt: no token / expired token -> 401
+                    gs.append({"jwt": {"secret": sec, "prev": ""}, "sig": None, "routes": [["GET", pth] for pth in SRV_PATHS], "opts": []})
+                    m = "GET"
+                    for pth in SRV_PATHS:
+                        for st in ("absent", "expired"):
+                            r = self._cs_req(rng, False)
+                            r.update({"method": "GET", "path": pth, "query": "", "toff": 0, "enc": False, "body": "", "hdr": "missing",
+                                      "xh": [list(x) for x in bundles["cond+auth+probe"]]})
+                            sreqs.append({"tgt": 3, "donor": 3, "j": sj(st), "cs": r, "clean": False})
                 out.append({"kind": "srv", "parallel": False, "outer": bname == "all", "cors": cors,
-                            "sgroups": json.loads(json.dumps(groups)), "sreqs": sreqs, "uacb": True, "uscb": False,
+                            "sgroups": gs, "sreqs": sreqs, "uacb": True, "uscb": False,
                             "usemw": bname != "none", "natives": False})
         # (d) the single-configuration engine cases (prefixes, public siblings of the protected routes)
         k = 0
@@ -675,6 +700,8 @@ class C18(Property):
         if rng.random() < 0.55:
             q["method"] = rng.choice(ALL_METHODS + ["OPTIONS", "OPTIONS"])
         q["xh"] = self._xh(rng)
+        if rng.random() < 0.3:
+            q["target"] = rng.choice(PATHS) + rng.choice(QUERIES)
         if claims is not None and cls != "dup_claim":
             for k, txt in raw.items():
                 claims[k] = "@@RAW-%s@@" % k
@@ -1218,6 +1245,9 @@ class C18(Property):
             hids = self._hids if getattr(self, "_hids", None) is not None else Intern(1)
             hdrs = clist(["(%d, %d)" % (HDR_ID.get(canon_hdr(n)) or 10 + hids("n:" + canon_hdr(n)), 0 if v_ == "" else hids("v:" + v_))
                           for n, v_ in (q.get("xh") or [])])
+            if q.get("target"):
+                # the request target rides along as a pseudo header field
+                hdrs = hdrs[:-1] + ("; " if hdrs != "[]" else "") + "(%d, %d)]" % (10 + hids("n::path"), hids("v:" + q["target"]))
             rq.append((cz(q["now"]), cred, cz(method_id(hids, q.get("method") or "GET")), hdrs))
             ob.append("(mkJobs %s %s %s %s %s %s)" % (cbool(o["ran"]), cz(o["status"]), self._claims(o["ctx"], keys, vals),
                                                      cbool(bool(o.get("panic"))), cz(o.get("uerr", -9)),
@@ -1459,6 +1489,12 @@ class C18(Property):
             mpool = CHECKED * 3 + ["PATCH", "HEAD", "OPTIONS", "OPTIONS"]
             m = rng.choice(mpool)
             g["routes"] = [[m, "/g%d/one" % gi]]
+            if rng.random() < 0.35:
+                # a path that deployments like to exempt from authentication; here it is a protected route like any other
+                used = {pth for gg in groups for _, pth in gg["routes"]}
+                free = [pth for pth in SRV_PATHS if pth not in used]
+                if free:
+                    g["routes"] = [[m, rng.choice(free)]]
             if rng.random() < 0.5:
                 g["routes"].append([rng.choice(mpool), "/g%d/two" % gi])
             if rng.random() < 0.2:
